@@ -271,3 +271,48 @@ func describeInstr(in ssa.Instruction) string {
 	}
 	return clip(in.String(), 100)
 }
+
+// SuccessReturn selects the points where a function commits to returning the value matching valRe (default nil)
+// as its i-th result: a return with that literal result, or — in functions whose results are spilled to a cell
+// because of defer/recover — the store of that value into the result cell.
+func SuccessReturn(i int, valRe string) SinkSel {
+	if valRe == "" {
+		valRe = `^nil$`
+	}
+	return func(in ssa.Instruction) bool {
+		switch x := in.(type) {
+		case *ssa.Return:
+			if i < len(x.Results) {
+				if _, spilled := resultCell(x.Results[i]); !spilled {
+					return re(valRe).MatchString(pathOf(x.Results[i]))
+				}
+			}
+		case *ssa.Store:
+			a, ok := x.Addr.(*ssa.Alloc)
+			if !ok || !re(valRe).MatchString(pathOf(x.Val)) {
+				return false
+			}
+			fn := in.Parent()
+			for _, b := range fn.Blocks {
+				if len(b.Instrs) == 0 {
+					continue
+				}
+				if r, ok := b.Instrs[len(b.Instrs)-1].(*ssa.Return); ok && i < len(r.Results) {
+					if cell, spilled := resultCell(r.Results[i]); spilled && cell == a {
+						return true
+					}
+				}
+			}
+		}
+		return false
+	}
+}
+
+func resultCell(v ssa.Value) (*ssa.Alloc, bool) {
+	if u, ok := v.(*ssa.UnOp); ok && u.Op == token.MUL {
+		if a, ok := u.X.(*ssa.Alloc); ok {
+			return a, true
+		}
+	}
+	return nil, false
+}
